@@ -1514,7 +1514,7 @@ func TestVerifOrder(t *testing.T) {
 		}
 	}
 	rng := verifRng(31)
-	n := verifN(4000, 20000)
+	n := verifN(2400, 20000) // quick: ≈140 single-pair cases per transport + 800 fan-out cases, besides the corpus and the exhaustive block
 	maxLen := 8
 	if verifThorough() {
 		maxLen = 14
